@@ -159,7 +159,10 @@ pub fn c14(cx: &Ctx) -> (Vec<Violation>, Cover) {
                         ));
                     }
                 } else {
-                    if !busy_bodies && a.comp_at(post, *ent, *comp) != Some(Some(*val)) {
+                    // (an entity that was waiting for its automatic despawn goes at the first collection, which the
+                    // reaction's own runner performs: the stored value can only be read back if it survived)
+                    let died_inside = a.deaths.iter().any(|d| d.ent == *ent && d.pos > pre && d.pos < post);
+                    if !busy_bodies && !died_inside && a.comp_at(post, *ent, *comp) != Some(Some(*val)) {
                         v.push(Violation::new(
                             "C14",
                             "C14/insert/component-missing",
